@@ -22,7 +22,7 @@ def run(chk, pid="C14"):
     t0 = time.time()
     chk.prove([usercls_tr.translate])
     t1 = time.time()
-    n = 400 if chk.thorough else 70
+    n = 1200 if chk.thorough else 70
     cases = corpus_cases(pid)
     ncorpus = len(cases)
     for i in range(n):
@@ -71,8 +71,8 @@ def run(chk, pid="C14"):
 
 
 def replay(rep):
-    sc = rep.get("case")
-    if not sc or "loads" not in sc:
+    sc = rep.get("case") or rep.get("scenario")
+    if not isinstance(sc, dict) or "loads" not in sc:
         print(json.dumps(rep, indent=1)[:4000])
         return 0
     sc = dict(sc, gc_check=True, next_check=True)
